@@ -41,6 +41,9 @@ Knobs (all optional):
     void_kids   bool   children inside void elements (outside C08's domain)
     attr_ws     bool   LF/TAB/CR inside attribute values
     text_cr     bool   CR inside text
+    pool_prob   float  probability that a text comes from the pool (default 0.7)
+    tags        list   restrict element names to this list (default: the whole vocabulary)
+    attr_counts list   choices for the number of attributes of an element (default [0,0,1,1,2,3])
 """
 XHTML = 'http://www.w3.org/1999/xhtml'
 XMLNS = 'http://www.w3.org/XML/1998/namespace'
@@ -114,6 +117,9 @@ class Gen(object):
         self.attr_ws = kw.get('attr_ws', False)
         self.text_cr = kw.get('text_cr', False)
         self.comment_dashes = kw.get('comment_dashes', False)
+        self.pool_prob = kw.get('pool_prob', 0.7)
+        self.tags = kw.get('tags')
+        self.attr_counts = kw.get('attr_counts', [0, 0, 1, 1, 2, 3])
         npool = kw.get('pool', 4)
         self.pool = [rand_text(rng, self.texts, cr=self.text_cr) for _ in range(npool)]
         if self.texts == 'special' and npool:
@@ -125,7 +131,7 @@ class Gen(object):
     # -- leaves
     def text(self):
         rng = self.rng
-        if rng.random() < 0.7:
+        if rng.random() < self.pool_prob:
             return rng.choice(self.pool)
         return rand_text(rng, self.texts, cr=self.text_cr)
 
@@ -149,7 +155,7 @@ class Gen(object):
     def attrs(self, tag):
         rng = self.rng
         out, seen = [], set()
-        for _ in range(rng.choice([0, 0, 1, 1, 2, 3])):
+        for _ in range(rng.choice(self.attr_counts)):
             r = rng.random()
             if r < 0.30:
                 name = ['', rng.choice(BOOLEAN)]
@@ -177,6 +183,8 @@ class Gen(object):
     # -- forest
     def element(self, depth, tag=None):
         rng = self.rng
+        if tag is None and self.tags:
+            tag = rng.choice(self.tags)
         if tag is None:
             r = rng.random()
             if r < 0.18:
